@@ -8,6 +8,7 @@ for patch in selftest/benign/*.diff; do
   [ -n "${1:-}" ] && [[ "$id" != *"$1"* ]] && continue
   WT=$(mktemp -d /tmp/ben-XXXXXX)
   git -C /repo worktree add --detach -q "$WT" HEAD || exit 2
+  [ -f /repo/Cargo.lock ] && cp /repo/Cargo.lock "$WT/"
   if ! git -C "$WT" apply "$(realpath "$patch")"; then echo "BENIGN $id: patch does not apply"; rc=1; git -C /repo worktree remove --force "$WT"; continue; fi
   EV=$(mktemp -d /tmp/ben-ev-XXXXXX)
   bad=""
